@@ -43,7 +43,8 @@ PLAN = dict(
                 "theorem for outputs of the linearizer: C07_codegen_correct_linearized_partial -, entry_ext, plain names/types, lits_i64, "
                 "args_i64, tags_i64, asm_wf, code_small, arity, heap_fits); non-vacuity on the heap example program hx_lin evaluated on "
                 "both machines. The correspondence + execution of the implementation's output on the ISA model against the AxCut machine "
-                "on every run ties the model to the Rust code",
+                "on every run ties the model to the Rust code."
+                " Round 4: asm_wf and code_small are theorems (C14_a64_compile_asm_wf, C14_a64_compile_code_small_reach): C07_codegen_simulates / C07_codegen_correct_linearized take boolean guards on the program instead (labels_guard, imm_guard_a64 = at most 1024 xtors per type, reach_guard_a64 = routine shorter than the 1 MiB reach of B.cond / ADR); tags_i64 follows from imm_guard_a64",
     assumptions=["Sem/A64Sem.v is the meaning of the emitted instructions (follows the Arm ARM; cannot be run on hardware in this sandbox; "
                  "validated against the AxCut machine on every run)",
                  "Sem/AxSem.v run_linear is the meaning of linear AxCut",
